@@ -158,3 +158,21 @@ package leveldb
 //@   requires len(p) >= 8 && len(e) >= 8
 //@   requires ucmp(p[:len(p)-8], e[:len(e)-8]) != 0
 //@   ensures icmp(p, e) == ucmp(p[:len(p)-8], e[:len(e)-8])
+
+// ---------------------------------------------------------------------------
+// filter.go: filters are built and probed on user keys (the 8-byte suffix is stripped on both sides).
+
+
+//@ func (iFilter).Contains
+//@   props C16
+//@   mode bv
+//@   safety on
+//@   requires len(key) >= 8
+//@   ensures [strip] result == fcontains(filter, key[:len(key)-8])
+
+//@ func (iFilterGenerator).Add
+//@   props C16
+//@   mode bv
+//@   safety on
+//@   requires len(key) >= 8
+//@   ensures [strip] fadded(key[:len(key)-8])
